@@ -120,9 +120,33 @@ def opt_as_deref(I, st, fr, t, a):
     return I.merge(bit, some(inner, ty), none(ty)), st
 
 
+def _as_ref_origin(I, st, v):
+    """the Option value `o` when v is what `o.as_ref()` returns (Some(&payload of o) exactly when o is Some), else None"""
+    leaf = None
+    if isinstance(v, Ite) and isinstance(v.a, Enum) and v.a.var == 1 and isinstance(v.b, Enum) and v.b.var == 0:
+        leaf = v.a.fields[0]
+    elif isinstance(v, Enum) and v.var == 1:
+        leaf = v.fields[0]
+    if isinstance(leaf, Ref) and leaf.path[-2:] == (('dc', 1), ('f', 0)):
+        try:
+            o = I.read_at(st, leaf.cell, leaf.path[:-2])
+        except Exception:
+            return None
+        if isinstance(v, Ite) and is_some_bit(I, o) is not v.c:
+            return None
+        return o
+    return None
+
+
 @summary('std::option::Option::<T>::map')
 def opt_map(I, st, fr, t, a):
     ty = ret_ty(I, fr, t) or OPT
+    if isinstance(a[1], FnItem) and a[1].path.endswith('::clone') and ('Arc' in a[1].path or 'Rc' in a[1].path or
+                                                                       a[1].path.endswith('Clone::clone')):
+        # `o.as_ref().map(Arc::clone)` is `o.clone()`: the same abstract value (a shared handle is its target)
+        o = _as_ref_origin(I, st, a[0])
+        if o is not None:
+            return o, st
 
     def on_some(s, x):
         r, s2 = I.call_closure(s, a[1], [x])
@@ -1062,7 +1086,8 @@ _old_collect = TABLE['std::iter::Iterator::collect']
 def collect2(I, st, fr, t, a):
     it = a[0]
     if isinstance(it, Struct) and it.ty in ('$SliceIter', '$Map', '$Filter', '$Cloned', '$FilterMap', '$Enumerate', '$StepBy', '$Skip', '$Take', '$Rev',
-                                            '$Chain', '$Zip', '$TakeWhile', '$SkipWhile'):
+                                            '$Chain', '$Zip', '$TakeWhile', '$SkipWhile') \
+            or (isinstance(it, Struct) and not it.ty.startswith(('$', 'std::', 'core::', 'closure:', 'tuple'))):     # or a local iterator type
         try:
             return _old_collect(I, st, fr, t, a)
         except Exception:
@@ -2363,6 +2388,21 @@ def _char_case(lower):
                     r = h(I, st, fr, t, [BV.const(val, 32)])[0]
                     out = r if out is None else I.merge(I.eq_const_bit(v, val), r, out)
                 return out, st
+        if isinstance(v, Term) and v.w == 32:
+            # an arbitrary character: shifted by 32 exactly inside the other case's ASCII range
+            lo, hi = (65, 90) if lower else (97, 122)
+            I.cur_pc = st.pc
+            rx = I.rng(v)
+            if rx and (rx[1] < lo or rx[0] > hi):
+                return v, st
+            bit = B.atom_bit(B.atom('inrange', (v, lo, hi), payload=(v, lo, hi)))
+            saved = st.pc
+            st.pc = saved + (bit,)
+            try:
+                moved = I.binop('Add' if lower else 'Sub', v, BV.const(32, 32), fr.fname if fr is not None else None, t.get('at'))
+            finally:
+                st.pc = saved
+            return I.merge(bit, moved, v), st
         return typed_opaque(I, st, fr, t, a)
     return h
 
@@ -2670,7 +2710,10 @@ def bit_iterator_contract(I, ty):
         r, st2 = I.call_local(nextfn, [Ref(cell, (), True)], st)
         return r, (st2.store[cell] if st2 is not None else None)
 
+    kinds = set()
+
     def family(low):
+        kinds.clear()
         try:
             r, after = run([C0] * 64)
             if not (isinstance(r, Enum) and r.var == 0):
@@ -2683,7 +2726,13 @@ def bit_iterator_contract(I, ty):
                 r, after = run(bits_)
                 want = list(bits_)
                 want[i] = C0
-                if not (isinstance(r, Enum) and r.var == 1 and r.fields and r.fields[0] == Struct('square::Square', (BV.const(i, 8),))):
+                if not (isinstance(r, Enum) and r.var == 1 and r.fields):
+                    return False
+                if r.fields[0] == Struct('square::Square', (BV.const(i, 8),)):
+                    kinds.add('square')
+                elif r.fields[0] == BV.const(1 << i, 64):
+                    kinds.add('onehot')          # yields the bit itself (a one-square board)
+                else:
                     return False
                 if not (isinstance(after, Struct) and isinstance(after.fields[0], BV) and
                         all(x is y for x, y in zip(after.fields[0].bits, want))):
@@ -2691,7 +2740,11 @@ def bit_iterator_contract(I, ty):
             return True
         except Undecided:
             return False
-    cache[ty] = 'low' if family(True) else ('high' if family(False) else None)
+    order = 'low' if family(True) else ('high' if family(False) else None)
+    if order is not None and len(kinds) != 1:
+        order = None
+    cache[ty] = order
+    I.__dict__.setdefault('_bititer_kind', {})[ty] = (next(iter(kinds)) if order else None)
     I.ev('bit-iterator', ty, None, cache[ty])
     return cache[ty]
 
@@ -2703,10 +2756,24 @@ def drain6(I, st, it):
     if isinstance(it, Struct) and not it.ty.startswith(('$', 'std::', 'core::', 'closure:', 'tuple')) and len(it.fields) == 1 \
             and isinstance(it.fields[0], BV) and it.fields[0].w == 64 and bit_iterator_contract(I, it.ty):
         bv = it.fields[0]
+        onehot = I._bititer_kind.get(it.ty) == 'onehot'
         if bv.known():
             order = range(64) if I._bititer[it.ty] == 'low' else range(63, -1, -1)
-            return [('elem', Struct('square::Square', (BV.const(i, 8),))) for i in order if (bv.uval() >> i) & 1], st
+            return [('elem', BV.const(1 << i, 64) if onehot else Struct('square::Square', (BV.const(i, 8),)))
+                    for i in order if (bv.uval() >> i) & 1], st
+        if onehot:
+            raise from_undecided()('the set bits of a symbolic board as one-square boards (only their squares have an abstract form)')
         return [('bulk', bv, Struct('square::Square', (SIGMA,)))], st
+    if isinstance(it, Struct) and it.ty == '$Map' and isinstance(it.fields[0], Struct) and not it.fields[0].ty.startswith('$') \
+            and len(it.fields[0].fields) == 1 and isinstance(it.fields[0].fields[0], BV) and not it.fields[0].fields[0].known() \
+            and bit_iterator_contract(I, it.fields[0].ty) and I._bititer_kind.get(it.fields[0].ty) == 'onehot':
+        # `bits(board).map(f)` over one-square boards: f is tabulated on the 64 constants; when f(1 << i) is Square(i) for every i
+        # the result is the squares of the set bits
+        for i in range(64):
+            r, st = I.call_closure(st, it.fields[1], [BV.const(1 << i, 64)])
+            if st is None or r != Struct('square::Square', (BV.const(i, 8),)):
+                raise from_undecided()('a function mapped over the set bits of a symbolic board is not "the square of the bit"')
+        return [('bulk', it.fields[0].fields[0], Struct('square::Square', (SIGMA,)))], st
     if isinstance(it, Struct) and it.ty in ('$Map', '$Filter', '$Cloned', '$Enumerate', '$FilterMap', '$Rev') and it.fields \
             and isinstance(it.fields[0], Struct) and not it.fields[0].ty.startswith('$') and len(it.fields[0].fields) == 1 \
             and isinstance(it.fields[0].fields[0], BV) and bit_iterator_contract(I, it.fields[0].ty):
@@ -2890,3 +2957,174 @@ def _wrapping_neg(I, st, fr, t, a):
 
 for _ty in ('u8', 'u16', 'u32', 'u64', 'usize', 'u128', 'i32', 'i64'):
     TABLE['core::num::<impl %s>::wrapping_neg' % _ty] = _wrapping_neg
+
+
+_find_before_symbolic = TABLE['std::iter::Iterator::find']
+
+
+def iter_find3(I, st, fr, t, a):
+    """`find` over known items with a predicate that may be symbolic: the first item whose predicate holds -
+    ite(p1, Some(x1), ite(p2, Some(x2), .. None)); each predicate is evaluated knowing the earlier ones failed"""
+    it = a[0]
+    itv = I.deref(st, it) if isinstance(it, Ref) else it
+    if isinstance(itv, Struct) and itv.ty.startswith('$') and itv.ty not in ('$Split', '$OpaqueSeqIter', '$Range'):
+        try:
+            items, st1 = drain(I, st, itv)
+        except Exception as e:
+            if e.__class__.__name__ != 'Undecided':
+                raise
+            items = None
+        if items is not None and all(x[0] == 'elem' for x in items) and len(items) <= 16:
+            ty = ret_ty(I, fr, t) or OPT
+            st = st1
+            saved = st.pc
+            leaves = []
+            try:
+                for x in items:
+                    cell = ('static', 'findarg%d' % next(I.frame_counter))
+                    st.store[cell] = x[1]
+                    r, st2 = I.call_closure(st, a[1], [Ref(cell)])
+                    if st2 is None or not isinstance(r, BV):
+                        raise from_undecided()('find predicate on a known item is not a boolean')
+                    st = st2
+                    bit = r.bits[0]
+                    d = I.decide(bit, st.pc)
+                    if d is True:
+                        leaves.append((C1, x[1]))
+                        break
+                    if d is False:
+                        continue
+                    leaves.append((bit, x[1]))
+                    st.pc = st.pc + (B.bnot(bit),)
+            finally:
+                st.pc = saved
+            out = none(ty)
+            if leaves and leaves[-1][0] is C1:
+                out = some(leaves[-1][1], ty)
+                leaves = leaves[:-1]
+            for bit, v in reversed(leaves):
+                out = I.merge(bit, some(v, ty), out)
+            return out, st
+    return _find_before_symbolic(I, st, fr, t, a)
+
+
+TABLE['std::iter::Iterator::find'] = iter_find3
+
+# `for x in &[a, b]` / `for x in &ARRAY`: by-reference iteration over an array
+for _k in ("std::array::<impl std::iter::IntoIterator for &'a [T; N]>::into_iter",
+           "core::array::<impl std::iter::IntoIterator for &'a [T; N]>::into_iter",
+           "core::array::<impl core::iter::IntoIterator for &'a [T; N]>::into_iter"):
+    TABLE[_k] = into_iter_ref
+
+
+_parse_before_local = TABLE['core::str::<impl str>::parse']
+
+
+def str_parse3(I, st, fr, t, a):
+    """`s.parse::<T>()` for a local T is T's own FromStr impl"""
+    target = (t.get('res') or {}).get('args', '').strip('[]').split(',')[0].strip()
+    k = '<%s as std::str::FromStr>::from_str' % target
+    if k in I.fns:
+        return I.call_local(k, [a[0]], st)
+    return _parse_before_local(I, st, fr, t, a)
+
+
+TABLE['core::str::<impl str>::parse'] = str_parse3
+
+
+@summary('std::result::Result::<T, E>::ok', 'std::result::Result::<T, E>::err')
+def res_ok(I, st, fr, t, a):
+    """Result -> Option of one side, leaf by leaf (total: cannot panic)"""
+    want_ok = (t.get('res') or {}).get('path', '').endswith('::ok')
+    ty = ret_ty(I, fr, t) or OPT
+    v = a[0]
+
+    def conv(x):
+        if isinstance(x, Ite):
+            return I.merge(x.c, conv(x.a), conv(x.b))
+        if isinstance(x, Enum):
+            if (x.var == 0) == want_ok:
+                return some(x.fields[0], ty) if x.fields else some(UNIT, ty)
+            return none(ty)
+        if isinstance(x, Tok):
+            d = I.discr(x)
+            bit = d.bits[0]          # 1 = Err
+            keep = B.bnot(bit) if want_ok else bit
+            return I.merge(keep, some(I.tok_field(x, 0, 0 if want_ok else 1), ty), none(ty))
+        raise from_undecided()('Result::ok on %r' % (x,))
+    return conv(v), st
+
+# calls on a generic `impl Iterator` parameter stay unresolved in the generic body: dispatched on the value at hand
+TABLE['std::iter::Iterator::next'] = next_dispatch2
+TABLE['std::iter::IntoIterator::into_iter'] = TABLE['<I as std::iter::IntoIterator>::into_iter']
+
+
+@summary('std::char::methods::<impl char>::to_digit', 'core::char::methods::<impl char>::to_digit')
+def char_to_digit(I, st, fr, t, a):
+    """`c.to_digit(r)` for a constant radix: panics only for r > 36; for r <= 10 it is Some(c - '0') exactly for the r ASCII digits
+    below '0' + r (the same predicate and value a one-character decimal parse gives for r = 10)"""
+    c = I.deref(st, a[0]) if isinstance(a[0], Ref) else a[0]
+    r = a[1]
+    ty = ret_ty(I, fr, t) or OPT
+    if isinstance(r, BV) and r.known() and 2 <= r.uval() <= 36 and fr is not None:
+        key = (fr.fname, t['at'], (t.get('res') or {}).get('path', ''))
+        I.asserts_ok[key] = I.asserts_ok.get(key, 0) + 1
+    if isinstance(r, BV) and r.known() and 2 <= r.uval() <= 10:
+        hi = 48 + r.uval() - 1
+        if isinstance(c, BV) and c.known():
+            return (some(BV.const(c.uval() - 48, 32), ty) if 48 <= c.uval() <= hi else none(ty)), st
+        I.cur_pc = st.pc
+        at = B.atom('inrange', (c, 48, hi), payload=(c, 48, hi))
+        bit = B.atom_bit(at)
+        saved = st.pc
+        st.pc = saved + (bit,)
+        try:
+            val = I.binop('Sub', c, BV.const(48, 32), fr.fname if fr is not None else None, t.get('at'))
+        finally:
+            st.pc = saved
+        return I.merge(bit, some(val, ty), none(ty)), st
+    return typed_opaque(I, st, fr, t, a)
+
+
+@summary('std::iter::Iterator::position')
+def iter_position(I, st, fr, t, a):
+    """`position` over known items with a predicate that may be symbolic: ite(p0, Some(0), ite(p1, Some(1), .. None))"""
+    it = a[0]
+    itv = I.deref(st, it) if isinstance(it, Ref) else it
+    items = None
+    if isinstance(itv, Struct) and itv.ty.startswith('$') and itv.ty not in ('$Split', '$OpaqueSeqIter', '$Range'):
+        try:
+            items, st = drain(I, st, itv)
+        except Exception as e:
+            if e.__class__.__name__ != 'Undecided':
+                raise
+            items = None
+    if items is None or not all(x[0] == 'elem' for x in items) or len(items) > 64:
+        return typed_opaque(I, st, fr, t, a)
+    ty = ret_ty(I, fr, t) or OPT
+    saved = st.pc
+    leaves = []
+    try:
+        for k, x in enumerate(items):
+            r, st2 = I.call_closure(st, a[1], [x[1]])
+            if st2 is None or not isinstance(r, BV):
+                raise from_undecided()('position predicate on a known item is not a boolean')
+            st = st2
+            bit = r.bits[0]
+            d = I.decide(bit, st.pc)
+            if d is True:
+                leaves.append((C1, k))
+                break
+            if d is False:
+                continue
+            leaves.append((bit, k))
+            st.pc = st.pc + (B.bnot(bit),)
+    finally:
+        st.pc = saved
+    out = none(ty)
+    if leaves and leaves[-1][0] is C1:
+        out = some(BV.const(leaves[-1][1], 64), ty)
+        leaves = leaves[:-1]
+    for bit, k in reversed(leaves):
+        out = I.merge(bit, some(BV.const(k, 64), ty), out)
+    return out, st
